@@ -57,8 +57,38 @@ func c02DeliveryClass(sp *spec.Spec, l *Layout, v any) bool {
 // the statement and such values are asserted neither valid nor invalid.
 func ambiguousEmpty(sp *spec.Spec, t *spec.Type, v any) bool {
 	e := sp.Eff(t)
+	switch x := v.(type) {
+	case spec.Arr:
+		// the same question one level down: elements of arrays, values of maps
+		for _, el := range x {
+			if e.Elem != nil && ambiguousEmpty(sp, e.Elem, el) {
+				return true
+			}
+		}
+		return false
+	case spec.MapV:
+		for _, kv := range x {
+			if e.Elem != nil && ambiguousEmpty(sp, e.Elem, kv.V) {
+				return true
+			}
+		}
+		return false
+	}
 	o, ok := v.(spec.Obj)
 	if !ok {
+		return false
+	}
+	if e.K == spec.KUnion {
+		// only the chosen alternative holds a value
+		for _, a := range e.Attrs {
+			if av := o[a.Name]; av != nil {
+				ae := sp.Eff(a.T)
+				if (ae.K == spec.KArray || ae.K == spec.KMap || ae.K == spec.KBytes) && spec.IsEmptyColl(av) && len(ae.Vs) > 0 {
+					return true
+				}
+				return ambiguousEmpty(sp, a.T, av)
+			}
+		}
 		return false
 	}
 	for _, a := range e.Attrs {
@@ -86,7 +116,7 @@ func ambiguousEmpty(sp *spec.Spec, t *spec.Type, v any) bool {
 				}
 			}
 		}
-		if ae.K == spec.KObject && av != nil && ambiguousEmpty(sp, a.T, av) {
+		if (ae.K == spec.KObject || ae.K == spec.KArray || ae.K == spec.KMap || ae.K == spec.KUnion) && av != nil && ambiguousEmpty(sp, a.T, av) {
 			return true
 		}
 	}
